@@ -10,7 +10,8 @@ NS = "EngineModel.Properties.C15CratesV2."
 LEAN_MODULES = ["Properties.C15CratesV2"]
 THEOREMS = [NS + t for t in [
     "v2c_C15_no_ub", "v2c_C15_reachable_no_ub", "v2c_C15_walk_terminates", "v2c_C15_view_terminates",
-    "v2c_C15_queries_no_ub", "v2c_C15_ordered_queries_no_ub", "v2c_C15_stale_crate", "v2c_C15_nonexistent_args"]]
+    "v2c_C15_queries_no_ub", "v2c_C15_ordered_queries_no_ub", "v2c_C15_reachable_queries_no_ub",
+    "v2c_C15_table_level_counterexample", "v2c_C15_stale_crate", "v2c_C15_nonexistent_args"]]
 ASSUMPTIONS = [
     "crates 2.x: undefined-behaviour sources made explicit: the missing-tail dereference of sort_ids / get_for_list "
     "(oob_read, inside the model Db/Chain.lean), the unbounded do-while of the same functions and the recursive view "
@@ -18,9 +19,10 @@ ASSUMPTIONS = [
     "runs).  The empty-optional dereferences of crate::name / parent / create_*_after were repaired (fix: f8bb282) and "
     "are modelled as the exceptions the code now throws",
     "crates 2.x: the ordered queries are proved free of `ub` on states whose Playlist / PlaylistEntity tables "
-    "represent lists (Chain.R) and whose parent links form a forest (forestOk); that every state reachable through "
-    "the API is such a state is proved by the crates-2.x work-package (C09 / C11: ChInv, PlInv) and is a hypothesis of "
-    "the C15 theorems; the tie evaluates the guarded walks on every generated history",
+    "represent lists (Chain.R) and whose parent links form a forest (forestOk); every state reachable through the "
+    "crate / membership / track API is such a state (Inv of the crates-2.x work-package, inv_run), which gives "
+    "v2c_C15_reachable_queries_no_ub; histories using the table-level playlist_entity_table operations are outside "
+    "(C09's recorded finding, v2c_C15_table_level_counterexample)",
 ]
 MANIFEST_TEXT = ("Crates 2.x: no mutating operation has a `ub` outcome on any state; on tables that represent lists / a "
                  "forest the chain walk ends within its row count and the recursive view within |Playlist| steps (guarded "
